@@ -343,6 +343,13 @@ static void typed_one(int width, int direct, int nodeid_rel, uint8_t nid, uint32
     uint32_t got = 0;
     if (width == 1) { e = CODictRdByte(&cod, key, &b); got = b; } else if (width == 2) { e = CODictRdWord(&cod, key, &w); got = w; } else { e = CODictRdLong(&cod, key, &l); got = l; }
     if (e != CO_ERR_NONE || got != value) VIOL(nodeid_rel ? "typed/roundtrip/nodeid" : "typed/roundtrip/plain", "width %d direct %d nodeid %u: wrote %x, read %x (err %d)", width, direct, nodeid_rel ? nid : 0, value, got, (int)e);
+    /* ... and every value can be followed by another one (the entry is not worn out by the value it holds, e.g. a stored 0) */
+    uint32_t v2 = (~value) & mask;
+    if (width == 1) e = CODictWrByte(&cod, key, (uint8_t)v2); else if (width == 2) e = CODictWrWord(&cod, key, (uint16_t)v2); else e = CODictWrLong(&cod, key, v2);
+    if (e != CO_ERR_NONE) VIOL("typed/second-write-failed", "width %d direct %d nodeid %u: write of %x after the entry held %x failed with %d", width, direct, nodeid_rel ? nid : 0, v2, value, (int)e);
+    got = 0;
+    if (width == 1) { e = CODictRdByte(&cod, key, &b); got = b; } else if (width == 2) { e = CODictRdWord(&cod, key, &w); got = w; } else { e = CODictRdLong(&cod, key, &l); got = l; }
+    if (e != CO_ERR_NONE || got != v2) VIOL(nodeid_rel ? "typed/roundtrip/nodeid" : "typed/roundtrip/plain", "width %d direct %d nodeid %u: wrote %x after %x, read %x (err %d)", width, direct, nodeid_rel ? nid : 0, v2, value, got, (int)e);
     if (*nb != 0x5EAF00D5u) VIOL("typed/neighbour", "neighbour entry changed");
     /* absent key */
     if (CODictRdLong(&cod, CO_DEV(0x2000, 2), &l) != CO_ERR_OBJ_NOT_FOUND) VIOL("typed/absent", "read of absent entry did not fail with NOT_FOUND");
